@@ -205,6 +205,9 @@ def run(ctx: Ctx) -> None:
         from . import c04
 
         c04.run(Alias(ctx, "C06.R9", "a malformed message is answered with the hinted 4xx (which announces close) whenever a response can still be started - request line / headers (IDLE) and request body after a valid head (SEND_RESPONSE) - and the connection is then closed without processing further requests (C04.R4)", only={"C04.R4"}))
+        from . import c02
+
+        c02.run(Alias(ctx, "C06.R10", "the application's response headers - including its own `Connection: close` - reach the protocol as given (validated, not filtered), so h11 announces the close and the connection is not recycled (C02.R7 on HTTPStream.app_send)", only={"C02.R7"}, where=["HTTPStream.app_send"]))
         c16.run(Alias(ctx, "C06.R7", "both workers hand every read - including the empty read at EOF - to the protocol, report Closed, and really close the transport when the protocol says Closed (C16.R2 on _read_data/_close/protocol_send)", only={"C16.R2"}, where=["TCPServer._read_data", "TCPServer._close", "TCPServer.protocol_send"]))
 
     ctx.assume("not decided: that h11 never yields events of request N+1 before start_next_cycle(); byte boundaries inside reads; h11's own keep-alive / HTTP/1.0 / Connection: close state tracking (trusted library)")
